@@ -1,5 +1,6 @@
 """C12 - colour balancing recovers exact colour maps and composes correctly."""
 import numpy as np
+import scipy.optimize
 from hypothesis import strategies as st
 
 from darsia.corrections.color import colorbalance as cb
@@ -9,10 +10,49 @@ EPS = np.finfo(float).eps
 MODES = ("diagonal", "linear", "affine")
 PLAIN = {"diagonal": cb.WhiteBalance, "linear": cb.ColorBalance, "affine": cb.AffineBalance}
 
-# Powell (tol=1e-6) on exact maps of well-conditioned swatch sets: worst observed max-abs error
-# over 20 000 calibration fits was 4e-9 (single fit) / 3e-8 (three stages); frozen with margin.
+# Powell (tol=1e-6) on exact maps of these well-conditioned swatch sets ends within 2e-10 (single
+# fit) / 1e-8 (three stages) of the targets in all but ~1 of 30 000 fits; in those rare cases the
+# search stalls (its termination test is met far from the optimum: observed 3e-5 and 1e-3).  A
+# stall is a property of the documented optimiser, not of the balance code, so a case that misses
+# the tolerance is only reported if an independent run of the documented optimiser (scipy Powell,
+# tol 1e-6, maxiter 1000, identity start, row-vector least-squares objective) on the same problem
+# does reach it; otherwise the case is outside the domain ("problems on which the optimiser
+# converges") and is counted as skipped.
 TOL_FIT = 1e-6
 TOL_STAGED = 2e-6
+
+
+def ref_fit(mode, src, dst):
+    """Independent run of the documented optimiser -> (A, b)."""
+    if mode == "diagonal":
+        def f(p):
+            return np.sum((src @ np.diag(p) - dst) ** 2)
+        x0 = np.ones(3)
+    elif mode == "linear":
+        def f(p):
+            return np.sum((src @ p.reshape((3, 3)) - dst) ** 2)
+        x0 = np.eye(3).flatten()
+    else:
+        def f(p):
+            return np.sum((src @ p[:9].reshape((3, 3)) + p[9:12] - dst) ** 2)
+        x0 = np.concatenate((np.eye(3).flatten(), np.zeros(3)))
+    res = scipy.optimize.minimize(f, x0, method="Powell", tol=1e-6,
+                                  options={"maxiter": 1000, "disp": False})
+    if mode == "diagonal":
+        return np.diag(res.x), np.zeros(3)
+    if mode == "linear":
+        return res.x.reshape((3, 3)), np.zeros(3)
+    return res.x[:9].reshape((3, 3)), res.x[9:12]
+
+
+def ref_staged(stages, x):
+    """Reference staged fit with the row-vector composition: stages = [(mode, src_k, dst_k)];
+    returns the accumulated map applied to x."""
+    a_acc, b_acc = np.eye(3), np.zeros(3)
+    for mode, s_k, d_k in stages:
+        a, b = ref_fit(mode, s_k @ a_acc + b_acc, d_k)
+        a_acc, b_acc = a_acc @ a, b_acc @ a + b
+    return x @ a_acc + b_acc
 
 
 # ---------------------------------------------------------------------------------------
@@ -145,14 +185,19 @@ def check_recovers_exact_map(case):
         raise Violation("shape", f"{variant}: balanced swatches have shape {got.shape}", tags)
     err = float(np.abs(got - dst).max())
     if not err <= TOL_FIT:
+        ra, rb = ref_fit(mode, src, dst)
+        ref_err = float(np.abs(ref_apply(src, ra, rb) - dst).max())
+        if not ref_err <= TOL_FIT:
+            return Outcome(False, status="skipped", labels=("optimiser-stalled",))
         raise Violation(f"not-recovered:{mode}", f"{variant} on an exact {tmode} map: max |apply(src) - dst| "
-                        f"= {err:.3e}", tags)
+                        f"= {err:.3e} (an independent Powell run reaches {ref_err:.1e})", tags)
     if got_img is not None:
         want = ref_apply(img, a, b)
         # extrapolation from the swatches to arbitrary colours in [0,1]^3: the fitted parameters
         # are determined to TOL_FIT / smallest singular value of the (centred) swatches (>= 0.075)
-        e2 = float(np.abs(got_img - want).max())
-        if got_img.shape != img.shape or not e2 <= 40 * TOL_FIT:
+        same_shape = got_img.shape == want.shape
+        e2 = float(np.abs(got_img - want).max()) if same_shape else float("inf")
+        if not e2 <= 40 * TOL_FIT:
             raise Violation(f"image-not-mapped:{mode}", f"{variant}: image passed through the fitted balance "
                             f"differs from the ground-truth map by {e2:.3e}", tags)
     return Outcome(nontrivial=_nonsym(a) or tmode == "diagonal" and mode == "diagonal",
@@ -344,24 +389,32 @@ def check_staged_recovers_composed_map(case):
         dst = ref_apply(ref_apply(src, d, np.zeros(3)), a, b)
         head = "head" if (sw["layout"] == "4x6" or sw["N"] >= 10) else "all"
         second = case["second_on"] if head == "head" else "all"
-        bal.find_balance(subset(src, head), subset(dst, head), mode="diagonal")
-        bal.find_balance(subset(src, second), subset(dst, second), mode=modes[1])
+        stages = [("diagonal", subset(src, head), subset(dst, head)),
+                  (modes[1], subset(src, second), subset(dst, second))]
+        for mode, s_k, d_k in stages:
+            bal.find_balance(s_k, d_k, mode=mode)
         nontrivial = _nonsym(a)
     else:
         t = src
         nontrivial = False
+        stages = []
         for mode in modes:
             a, b = make_map(rng, mode)
             nontrivial |= _nonsym(a)
             t = ref_apply(t, a, b)
+            stages.append((mode, src, t))
             bal.find_balance(src, t, mode=mode)
         dst = t
         nontrivial &= not all(m == "diagonal" for m in modes)
     got = np.asarray(bal.apply_balance(src))
     err = float(np.abs(got - dst).max())
     if got.shape != dst.shape or not err <= TOL_STAGED:
+        ref_err = float(np.abs(ref_staged(stages, src) - dst).max())
+        if not ref_err <= TOL_STAGED:
+            return Outcome(False, status="skipped", labels=("optimiser-stalled",))
         raise Violation("staged-not-recovered", f"{case['scenario']} {modes}: accumulated balance leaves "
-                        f"max |apply(src) - dst| = {err:.3e} on an exactly representable map", tags)
+                        f"max |apply(src) - dst| = {err:.3e} on an exactly representable map (independent "
+                        f"Powell fits composed in the row-vector convention reach {ref_err:.1e})", tags)
     return Outcome(nontrivial=nontrivial, key=[sw, modes, case["scenario"], case["second_on"], case["mseed"]],
                    labels=_sw_labels(sw) + (case["scenario"], "-".join(modes)))
 
